@@ -1,13 +1,17 @@
 """C16 - references and memory: ownership discipline of object references."""
 from .. import engine
-from ..rules import refs, cursor
+from ..rules import refs, cursor, splitcommit
 
 
 def tu_check(tu):
     r = refs.analyse_tu(tu)
     c = cursor.analyse_tu(tu)
     sp = refs.slot_pair(tu)
-    r["findings"] = r["findings"] + c["findings"] + sp["findings"]
+    sf = refs.setitem_fresh(tu)
+    sc = splitcommit.analyse_tu(tu)
+    r["findings"] = r["findings"] + c["findings"] + sp["findings"] + sf["findings"] + sc["findings"]
+    r["stats"]["setitem_sites"] = sf["sites"]
+    r["stats"]["split_sites"] = sc["stats"]["split_call_sites"] + sc["stats"]["split_commit_stores"]
     r["stats"]["cursor"] = c["stats"]
     r["stats"]["slot_stores"] = sp["stores"]
     return r
@@ -15,7 +19,7 @@ def tu_check(tu):
 
 def run(tier="quick", seed=0, use_cache=True):
     res = engine.Result("C16")
-    res.rules = ["LOCAL-REF", "CURSOR-HOLD", "SLOT-PAIR", "RELEASE-ATTACHED"]
+    res.rules = ["LOCAL-REF", "CURSOR-HOLD", "SLOT-PAIR", "RELEASE-ATTACHED", "SETITEM-FRESH", "SPLIT-COMMIT"]
     res.explanation = (
         "Ownership dataflow (alias classes with an owned-reference count, "
         "NULL-ness refinement, out-parameter and returns-new-reference "
@@ -39,7 +43,12 @@ def run(tier="quick", seed=0, use_cache=True):
         "whole array was detached from its node - because releasing an object "
         "can run arbitrary code (finalizer, weak-reference callback) that looks "
         "at the container (three accepted idioms: releases of nodes known to be "
-        "empty / to hold native data only, listed in the evidence). Decides the local half of 'exactly one "
+        "empty / to hold native data only, listed in the evidence). SETITEM-FRESH: the unchecked PyTuple_SET_ITEM "
+        "/ PyList_SET_ITEM (no release of the previous item) are applied only "
+        "to containers the function created empty. SPLIT-COMMIT: a split "
+        "function has no failure exit once the new sibling's len is set (its "
+        "destructor would release entries the original node still owns), and "
+        "its caller none before the sibling is stored as a child. Decides the local half of 'exactly one "
         "reference per stored object / no leak on any path'; ownership of "
         "node fields across functions and out-of-bounds accesses need a "
         "sanitizer run and are not decided.")
@@ -77,6 +86,9 @@ def run(tier="quick", seed=0, use_cache=True):
     for r in out.values():
         acc |= set(r["stats"]["attached_accepted"])
     res.extra["release_attached_accepted_idioms"] = sorted(acc)
+    res.floor("unchecked SET_ITEM sites (OO)", oo["setitem_sites"], 14)
+    res.count("SETITEM-FRESH", sum(r["stats"]["setitem_sites"] for r in out.values()))
+    res.count("SPLIT-COMMIT", sum(r["stats"]["split_sites"] for r in out.values()))
     res.extra["cursor_accepted_idioms"] = oo["cursor"].get("accepted")
     res.extra["out_owned_summaries_OO"] = oo["out_owned"]
     res.samples = [
